@@ -39,7 +39,10 @@ RULE = ('template trees over Table/Point/Function/Constant atoms, AtomicMultiCha
         'n / n +- (2**61-1)) and lie on both sides of a constraint, plus calls after a failed call; H2 loop indices '
         'running through such values; D7 the very same object in two places; D8 zero-duration atoms, parametrised first '
         'entry times; D9 ParallelChannelPT below atomic composites; D10 time dependent ParallelChannelPT values x dropped '
-        'channels x removed names.  Values are handed over as int / float / numpy scalar / string / DictScope.  '
+        'channels x removed names; D11 a MappingPT that maps an inner channel to None; D12 inputs inside the class of the '
+        'known finding (zero factor hides a missing name in a FunctionPT / time dependent value) x own constraint true / '
+        'false / on the missing name, negative window, violated sibling before / after, mappings, loops, repetitions, '
+        'dropped channels.  Values are handed over as int / float / numpy scalar / string / DictScope.  '
         'Families: exact declared '
         'names, +extra names (second assignment; the two programs are compared by what they play), one declared name '
         'removed, one constraint violated, perturbed values, channels dropped (all / partial), zero factor + removed '
@@ -61,6 +64,8 @@ ASSUMPTIONS = [
     'ArithmeticPT: operators + - * / with parameter-only scalars (optionally multiplied by the time variable next to '
     'an atomic operand; divisors read a parameter); ArithmeticAtomicPT operands have equal durations',
     'expression language: + - * over parameters and dyadic constants; comparisons < <= > >= ==',
+    '"played node" is read as "reached node": an atom whose channels are all dropped or whose duration is 0 produces '
+    'nothing, yet its constraints are validated by the code and count in the specification',
     'AtomicMultiChannelPT without explicit duration; time dependent ParallelChannelPT values only next to an atomic '
     'template (constructor requirement); '
     'ParallelChannelPT values are either all plain or all time dependent (mixed = two nested templates)',
@@ -1712,13 +1717,85 @@ def directed_ren_none_cases():
     return cases
 
 
+def directed_known_class_cases():
+    """D12 (round 5, audit of the known-finding predicate): inputs INSIDE the class of the known finding (a function atom /
+    time dependent ParallelChannelPT value `(p0*p1)*t` with p0 = 0 supplied and p1 missing: the missing name vanishes
+    symbolically) combined with everything else that can go wrong or right there: own constraint true / false / on the
+    missing name, own window negative, a violated sibling before / after, below a mapping (eager and lazy), in a loop
+    whose index is the zero factor, in a repetition (count 0: unreached), dropped channel.  Every case is judged by the
+    model (check_corr) and the specification; only the bare "result although a needed value is missing" is the known
+    finding, everything else must still be reported"""
+    cases = []
+    ref = {'p0': F(0), 'p1': F(5), 'p2': F(1), 'p3': F(2)}
+    prod = lambda x='p0', y='p1': ['*', V(x), V(y)]
+    lt = lambda x, q: {'op': '<', 'l': V(x), 'r': C(q)}
+    gt = lambda x, q: {'op': '>', 'l': V(x), 'r': C(q)}
+
+    def fz(cs=(), ms=(), x='p0', y='p1'):
+        return {'k': 'func', 'ch': ['A'], 'reads': [prod(x, y)], 'dur': C(2), 'cs': list(cs), 'ms': [list(m) for m in ms]}
+
+    def tz(cs=(), x='p0', y='p1'):
+        inner = {'k': 'table', 'ch': ['A'], 'reads': [V('p2'), C(1)], 'dur': C(2), 'cs': list(cs), 'ms': []}
+        return {'k': 'par', 'inner': inner, 'ow': [['B', prod(x, y)]], 'td': True}
+    def sib(c, chs):
+        return {'k': 'table', 'ch': list(chs), 'reads': [V('p2'), C(1)] * len(chs), 'dur': C(2), 'cs': [c], 'ms': []}
+    for mk, mname in ((fz, 'func'), (tz, 'partd')):
+        chs = sorted(py_channels(mk()))
+        bad_sib = lambda: sib(gt('p2', 3), chs)
+        good_sib = lambda: sib(lt('p2', 3), chs)
+        trees = [
+            ('plain', mk()),
+            ('cs_true', mk(cs=[lt('p2', 3)])),
+            ('cs_false', mk(cs=[gt('p2', 3)])),
+            ('cs_on_missing', mk(cs=[lt('p1', 9)])),
+            ('cs_on_zero', mk(cs=[gt('p0', 0)])),
+            ('sib_bad_after', _seq(mk(), bad_sib())),
+            ('sib_bad_before', _seq(bad_sib(), mk())),
+            ('sib_good', _seq(good_sib(), mk(), good_sib())),
+            ('seq_cs_false', _seq(mk(), cs=[gt('p2', 3)])),
+            ('rep', _rep(mk(), V('p3'))),
+            ('rep_cs_false', dict(_rep(mk(), V('p3')), cs=[gt('p2', 3)])),
+            ('rep0', _rep(mk(), ['-', V('p3'), C(2)])),
+            ('map_lazy', {'k': 'map', 'inner': mk(x='q0', y='q1'), 'm': {'q0': V('p0'), 'q1': V('p1')}, 'cs': []}),
+            ('map_zero_product', {'k': 'map', 'inner': mk(x='q0'), 'm': {'q0': ['*', V('p0'), V('p2')]}, 'cs': []}),
+            ('map_cs_false', {'k': 'map', 'inner': mk(), 'm': {'p2': ['+', V('p2'), C(1)]}, 'cs': [gt('p2', 3)]}),
+            ('map_inner_cs_false', {'k': 'map', 'inner': mk(cs=[lt('p2', 2)]), 'm': {'p2': ['+', V('p2'), C(1)]}, 'cs': []}),
+            ('loop_idx_zero', _for(mk(x='i1'), 'i1', C(0), C(1), use_idx=False)),
+            ('loop_idx_zero_then_one', _for(mk(x='i1'), 'i1', C(0), C(2), use_idx=False)),
+            ('loop_cs_false_2nd', _for(mk(cs=[lt('i1', 1)], x='p0'), 'i1', C(0), C(2), use_idx=False)),
+        ]
+        if mname == 'func':
+            trees += [
+                ('win_negative', mk(ms=[(C(0), ['-', V('p2'), C(2)])])),
+                ('win_ok', mk(ms=[(C(0), V('p2'))])),
+                ('win_on_missing', mk(ms=[(C(0), ['*', V('p1'), V('p1')])])),
+                ('in_amc', {'k': 'amc', 'subs': [mk(), _const(V('p2'), 'B')], 'cs': [], 'ms': []}),
+                ('in_amc_cs_false', {'k': 'amc', 'subs': [mk(), _const(V('p2'), 'B')], 'cs': [gt('p2', 3)], 'ms': []}),
+                ('in_amc_eager_map', {'k': 'amc', 'cs': [], 'ms': [], 'subs': [
+                    {'k': 'map', 'inner': mk(x='q0'), 'm': {'q0': V('p0')}, 'cs': []}, _const(V('p2'), 'B')]}),
+            ]
+        for name, tree in trees:
+            if not (sympy_ok(tree) and constructible(tree)):
+                continue
+            for drop in ([], ['A'], ['B']):
+                if drop and name not in ('plain', 'cs_false', 'in_amc', 'sib_bad_after'):
+                    continue
+                dtag = ''.join(drop) or 'none'
+                c = d_case(tree, ref, 'D12:%s:%s:%s' % (mname, name, dtag), kind='zero', drop=drop)
+                c['zeros'], c['rmn'] = ['p0'], 'p1'
+                cases.append(c)
+            c = d_case(tree, ref, 'D12:%s:%s:complete' % (mname, name))       # the same trees with every name supplied
+            cases.append(c)
+    return cases
+
+
 def directed_cases(tier):
     full = tier == 'thorough'
     return (directed_mapping_cases(full) + directed_loop_cases() + directed_extra_cases()
             + directed_channel_cases() + directed_frame_cases(full) + directed_history_cases(full)
             + directed_hash_loop_cases(full) + directed_alias_cases(full) + directed_atom_cases()
             + directed_par_atomic_cases(full) + directed_par_td_cases(full)
-            + directed_ren_none_cases())
+            + directed_ren_none_cases() + directed_known_class_cases())
 
 
 def gen_cases(rng, tier, ctx, every_constraint=False):
@@ -2148,8 +2225,8 @@ def histogram_keys(case, obs):
     return keys
 
 
-_GUARD = {}          # canonical hash of (case, obs) -> guard holds
-_PENDING = {}        # candidates seen by to_coq whose guard has not been evaluated yet: hash -> Gallina term
+_GUARD = {}          # canonical hash of (case, obs) -> the case is exactly the known finding (Corr.check_known)
+_PENDING = {}        # candidates seen by to_coq that have not been evaluated yet: hash -> Gallina term
 
 
 def _candidate(obs):
@@ -2158,18 +2235,20 @@ def _candidate(obs):
     return 'names' in obs and bool(set(obs['names']) - set(obs['values'])) and obs['out'] in ('program', 'none')
 
 
-def guard_holds(case, obs):
-    """guard_C03_function_zero (Spec.v) evaluated in Coq on the user-level tree for both assignments (check_guard);
-    all candidates seen so far are evaluated in one batch"""
+def known_holds(case, obs):
+    """Corr.check_known evaluated in Coq: the implementation does exactly what the faithful model (which exhibits the
+    finding) does, and every clause of check_spec holds except clause (d) for assignments on which
+    guard_C03_function_zero is false, a needed value is missing and a result was returned.  All candidates seen so far
+    are evaluated in one batch"""
     key = vlib.canonical_hash([case, obs])
     if key not in _GUARD:
         _PENDING.setdefault(key, _to_coq(case, obs))
         keys = sorted(_PENDING)
         wd = os.path.join(vlib.CASES, 'C03.guard.%d' % os.getpid())
         try:
-            res = vlib.run_coq_cases(wd, CORR_IMPORTS, ['check_guard'], [_PENDING[k] for k in keys], shard=SHARD)
+            res = vlib.run_coq_cases(wd, CORR_IMPORTS, ['check_known'], [_PENDING[k] for k in keys], shard=SHARD)
             for j, k in enumerate(keys):
-                _GUARD[k] = j not in res['check_guard']
+                _GUARD[k] = j not in res['check_known']
             _PENDING.clear()
         finally:
             vlib.rmtree(wd)
@@ -2177,16 +2256,18 @@ def guard_holds(case, obs):
 
 
 def classify(case, obs):
-    """known finding: the implementation returned (program / None) although a declared name is not supplied, and the
-    input lies in the class the theorems exclude: the Coq guard guard_C03_function_zero is false (a reached function
-    atom whose expression cannot be evaluated but whose symbolic residual is closed)"""
+    """known finding: the implementation returned (program / None) although a declared name is not supplied, the input
+    lies in the class the theorems exclude (the Coq guard guard_C03_function_zero is false: a reached function atom
+    whose expression cannot be evaluated but whose symbolic residual is closed), the faithful model predicts exactly
+    this observation (check_corr) and nothing else is wrong with the case (round 5: the guard alone would file any
+    other violation on such an input under the finding, and the check skips check_corr for a classified case)"""
     if 'names' not in obs or not _candidate(obs):
         return None
     try:
-        if not guard_holds(case, obs):
+        if known_holds(case, obs):
             return 'function-zero-factor-hides-missing-parameter'
     except Exception:
-        return None         # the guard could not be evaluated: not classified (reported as a violation)
+        return None         # could not be evaluated: not classified (reported as a violation)
     return None
 
 
@@ -2304,35 +2385,48 @@ MANIFEST = {
                   'time dependent values, also below atomic composites)/Arithmetic (scalar and atomic)/TimeReversal/'
                   'Sequence/Repetition/ForLoop/Mapping templates with per-channel dropping and the channel renaming of '
                   'MappingPT; FunctionPT expressions and time dependent ParallelChannelPT values are substituted '
-                  'symbolically (polynomial residual).  Proved for all trees, scopes and drop sets (induction on the '
-                  'template): the constructor preserves the specification (C03_construct_spec), so all clauses are '
-                  'stated on the user-level tree; the model refines an independent lazy specification (obligations of '
-                  'all reached nodes); (a) declared names suffice; (b) assignments agreeing on the declared names give '
-                  'the same result, complete or not (C03_irrelevant); (c) complete assignment: accepted iff every '
-                  'obligation holds, else ParameterConstraintViolation; (c only-if, d) for any assignment under the '
-                  'executable guard guard_C03_function_zero; C03_missing_refuted exhibits the known finding in the '
-                  'model.  The model is a function of tree and assignment; that the code has no memory either is tested: '
-                  'the correspondence check runs single calls AND histories of calls on one template object (Coq case '
-                  'CHist: every step judged on its own by model and specification) on a deterministic directed stream '
-                  '(name coincidences D1-D4; frame-pushing nodes between a rebinding mapping and the reader D5; '
-                  'hash-colliding values in histories and loop ranges H1/H2; aliased objects D7; zero durations D8; '
-                  'ParallelChannelPT below atomic composites D9; time dependent values D10) plus generated trees x '
-                  'assignment families x value types (thorough: exhaustive small scope, full directed products); '
-                  'check_spec evaluates the clauses from the specification on the user-level tree, clause (b) '
-                  'including equality of the instantiated programs (sampled); failing cases are classified by the '
-                  'Coq guard.',
+                  'symbolically (polynomial residual).  Proved for all trees, scopes and drop sets of this model '
+                  '(induction on the template): the constructor preserves the specification (C03_construct_spec), so all '
+                  'clauses are stated on the user-level tree; the model refines an independent lazy specification '
+                  '(obligations of all REACHED nodes: the root, every sequence member, loop / repetition bodies per '
+                  'iteration; an atom whose channels are all dropped or whose duration is 0 is reached and its '
+                  'constraints count, as in the code -- the property text says "played"); (a) declared names suffice '
+                  '(never a missing-parameter error); (b) assignments agreeing on the declared names give the same '
+                  'outcome kind (program / nothing / which error), complete or not (C03_irrelevant); (c) complete '
+                  'assignment: accepted iff every obligation holds, else ParameterConstraintViolation when the numbers '
+                  'are well formed; (c only-if, d) for any assignment under the executable guard '
+                  'guard_C03_function_zero (C03_missing_tight: or whenever the ideal verdict is not "missing value"); '
+                  'C03_missing_refuted exhibits the known finding in the model.  Round 5: the helpers shared by model and '
+                  'specification (Python range, channel renaming / dropping, kept values) are characterised by theorems of '
+                  'their own.  Tested, not proved: that the real code behaves like the model (correspondence check: '
+                  'single calls AND histories of calls on one template object, Coq case CHist, every step judged on its '
+                  'own by model and specification) on a deterministic directed stream (name coincidences D1-D4; '
+                  'frame-pushing nodes between a rebinding mapping and the reader D5; hash-colliding values in histories '
+                  'and loop ranges H1/H2; aliased objects D7; zero durations D8; ParallelChannelPT below atomic composites '
+                  'D9; time dependent values D10; channels mapped to None D11; the class of the known finding D12) plus '
+                  'generated trees x assignment families x value types (thorough: exhaustive small scope, full directed '
+                  'products); check_spec evaluates the clauses from the specification (Spec.v) on the user-level tree and '
+                  'the observed parameter_names, clause (b) including equality of the instantiated programs (sampled).  '
+                  'A rejected case counts as the known finding only if the model predicts the observation exactly and '
+                  'nothing but "a result although a vanishing needed value is missing" is wrong with it '
+                  '(Corr.check_known).',
     'level_note': 'Known finding (FunctionPT / time dependent ParallelChannelPT value: a missing parameter multiplied by a '
                   'supplied 0 vanishes symbolically) is reproduced by the model; clauses (c only-if)/(d) and the '
-                  'refinement are proved under the guard that excludes exactly such inputs.  Six defects fixed in /repo '
+                  'refinement are proved under a guard that excludes such inputs; the guard looks at all obligations in '
+                  'instantiation order and therefore also excludes inputs where an EARLIER needed value is missing and '
+                  'the code never gets to the function atom (Proofs10.ex_guard_overapprox; harmless there, the unguarded '
+                  'refinement C03_refines_unguarded still applies).  Six defects fixed in /repo '
                   '(nested MappingPT dropped inner constraints; ArithmeticAtomicPT did not declare its measurement '
                   'parameters; a parameter called t broke ArithmeticPT scalars / time dependent ParallelChannelPT '
                   'values; two eager scope copies hiding t changed the result of incomplete assignments (ArithmeticPT, '
                   'round 4: ParallelChannelPT, found by a failing proof); a time dependent ParallelChannelPT value '
                   'whose time dependence vanishes raised AssertionError).  Equality of program contents in clause (b) '
-                  'and along histories is tested, not proved (waveforms are not modelled).  Trusted: Coq kernel, sympy '
+                  'and along histories is tested, not proved (waveforms are not modelled).  With a declared name absent '
+                  'the code may raise a missing-parameter error although no played node needs the name (eager '
+                  'keys()/as_dict()); the specification allows that.  Trusted: Coq kernel, sympy '
                   'on the generated polynomial fragment (function expressions of depth <= 2), harness.  Not modelled: '
                   'volatile parameters, AtomicMultiChannelPT explicit duration, TimeReversalPT below an atomic '
-                  'composite.',
+                  'composite, identifiers, expressions beyond + - * and comparisons.',
     'technique': 'Coq proof (structural induction over the nested template type; refinement of a lazy obligation '
                  'semantics; relational proof over scope objects) + correspondence check with an independent '
                  'specification oracle on a directed deterministic stream, histories on shared objects and a random '
